@@ -229,7 +229,7 @@ def gen_c36(d, opts):
 
 
 STORE_ATTEMPTS = ["put", "put_operators", "put_parts", "put_parts_matching", "load_recipes", "put_recipe", "set_xgrid", "update", "dump_default"]
-HARMLESS = ["get", "del", "contains", "iter", "unload_all", "items", "approx", "cards", "dump_other", "close_again", "ctx", "get_recipe", "get_part", "sync_all"]
+HARMLESS = ["get", "del", "contains", "iter", "unload_all", "items", "approx", "cards", "dump_other", "close_again", "ctx", "get_recipe", "get_part", "sync_all", "meta_lowlevel"]
 
 
 def gen_c39(d, opts):
@@ -757,6 +757,12 @@ class Interp:
             elif kind == "get_part":
                 h = _header(op["recipe"])
                 (eko.parts if isinstance(h, Evolution) else eko.parts_matching)[h]
+            elif kind == "meta_lowlevel":
+                # below the EKO API: the metadata view writes into the working
+                # directory without an access check; whatever it does, the archive
+                # of a read-only / closed EKO must not change
+                eko.metadata.xgrid = interpolation.XGrid([0.3, 0.7, 1.0])
+                eko.metadata.update()
             elif kind == "sync_all":
                 for inv in (eko.recipes, eko.recipes_matching, eko.parts, eko.parts_matching, eko.operators):
                     inv.sync()
